@@ -1,1 +1,198 @@
-// hook body for prefilter (included into /repo under cfg(aho_corasick_verif))
+// Hook body included as `crate::util::prefilter::verif`.
+use super::*;
+
+/// What `Builder::build` selected, with the parameters needed to rebuild it.
+#[derive(Clone, Debug)]
+pub enum Desc {
+    None,
+    Start1(u8),
+    Start2(u8, u8),
+    Start3(u8, u8, u8),
+    Rare1(u8, u8),
+    Rare2([u8; 256], u8, u8),
+    Rare3([u8; 256], u8, u8, u8),
+    Memmem(Vec<u8>),
+    Packed,
+    Unknown(alloc::string::String),
+}
+
+fn offsets_to_array(o: &RareByteOffsets) -> [u8; 256] {
+    let mut a = [0u8; 256];
+    for i in 0..256 {
+        a[i] = o.set[i].max;
+    }
+    a
+}
+
+fn offsets_from_array(a: &[u8; 256]) -> RareByteOffsets {
+    // loop free: RareByteOffset is a single u8, RareByteOffsets a [_; 256]
+    unsafe { core::mem::transmute::<[u8; 256], RareByteOffsets>(*a) }
+}
+
+/// Describe a built prefilter. The concrete type behind the trait object is
+/// established from its own `Debug` output.
+#[cfg(feature = "perf-literal")]
+pub fn describe(p: Option<&Prefilter>) -> Desc {
+    let p = match p {
+        None => return Desc::None,
+        Some(p) => p,
+    };
+    let dbg = alloc::format!("{:?}", p.finder);
+    let raw = Arc::as_ptr(&p.finder) as *const u8;
+    unsafe {
+        if dbg.starts_with("StartBytesOne") {
+            let f = &*(raw as *const StartBytesOne);
+            Desc::Start1(f.byte1)
+        } else if dbg.starts_with("StartBytesTwo") {
+            let f = &*(raw as *const StartBytesTwo);
+            Desc::Start2(f.byte1, f.byte2)
+        } else if dbg.starts_with("StartBytesThree") {
+            let f = &*(raw as *const StartBytesThree);
+            Desc::Start3(f.byte1, f.byte2, f.byte3)
+        } else if dbg.starts_with("RareBytesOne") {
+            let f = &*(raw as *const RareBytesOne);
+            Desc::Rare1(f.byte1, f.offset.max)
+        } else if dbg.starts_with("RareBytesTwo") {
+            let f = &*(raw as *const RareBytesTwo);
+            Desc::Rare2(offsets_to_array(&f.offsets), f.byte1, f.byte2)
+        } else if dbg.starts_with("RareBytesThree") {
+            let f = &*(raw as *const RareBytesThree);
+            Desc::Rare3(offsets_to_array(&f.offsets), f.byte1, f.byte2, f.byte3)
+        } else if dbg.starts_with("Memmem") {
+            let f = &*(raw as *const Memmem);
+            Desc::Memmem(f.0.needle().to_vec())
+        } else if dbg.starts_with("Packed") {
+            Desc::Packed
+        } else {
+            Desc::Unknown(dbg)
+        }
+    }
+}
+
+#[cfg(feature = "perf-literal")]
+pub fn packed_searcher(p: &Prefilter) -> Option<&crate::packed::Searcher> {
+    let dbg = alloc::format!("{:?}", p.finder);
+    if dbg.starts_with("Packed") {
+        let raw = Arc::as_ptr(&p.finder) as *const Packed;
+        Some(unsafe { &(*raw).0 })
+    } else {
+        None
+    }
+}
+
+#[cfg(feature = "perf-literal")]
+pub fn start1(b1: u8) -> Prefilter {
+    Prefilter { finder: Arc::new(StartBytesOne { byte1: b1 }), memory_usage: 0 }
+}
+#[cfg(feature = "perf-literal")]
+pub fn start2(b1: u8, b2: u8) -> Prefilter {
+    Prefilter {
+        finder: Arc::new(StartBytesTwo { byte1: b1, byte2: b2 }),
+        memory_usage: 0,
+    }
+}
+#[cfg(feature = "perf-literal")]
+pub fn start3(b1: u8, b2: u8, b3: u8) -> Prefilter {
+    Prefilter {
+        finder: Arc::new(StartBytesThree { byte1: b1, byte2: b2, byte3: b3 }),
+        memory_usage: 0,
+    }
+}
+#[cfg(feature = "perf-literal")]
+pub fn rare1(b1: u8, off: u8) -> Prefilter {
+    Prefilter {
+        finder: Arc::new(RareBytesOne {
+            byte1: b1,
+            offset: RareByteOffset { max: off },
+        }),
+        memory_usage: 0,
+    }
+}
+#[cfg(feature = "perf-literal")]
+pub fn rare2(offsets: &[u8; 256], b1: u8, b2: u8) -> Prefilter {
+    Prefilter {
+        finder: Arc::new(RareBytesTwo {
+            offsets: offsets_from_array(offsets),
+            byte1: b1,
+            byte2: b2,
+        }),
+        memory_usage: 0,
+    }
+}
+#[cfg(feature = "perf-literal")]
+pub fn rare3(offsets: &[u8; 256], b1: u8, b2: u8, b3: u8) -> Prefilter {
+    Prefilter {
+        finder: Arc::new(RareBytesThree {
+            offsets: offsets_from_array(offsets),
+            byte1: b1,
+            byte2: b2,
+            byte3: b3,
+        }),
+        memory_usage: 0,
+    }
+}
+#[cfg(all(feature = "std", feature = "perf-literal"))]
+pub fn memmem(needle: &'static [u8]) -> Prefilter {
+    Prefilter {
+        finder: Arc::new(Memmem(memchr::memmem::Finder::new(needle))),
+        memory_usage: needle.len(),
+    }
+}
+#[cfg(feature = "perf-literal")]
+pub fn packed(s: crate::packed::Searcher) -> Prefilter {
+    Prefilter { finder: Arc::new(Packed(s)), memory_usage: 0 }
+}
+
+/// The real letter flip used by the builders.
+pub fn opposite_case(b: u8) -> u8 {
+    opposite_ascii_case(b)
+}
+
+/// Run the real rare-byte builder on the given patterns and then the built
+/// prefilter on a haystack. Returns (built?, candidate start).
+#[cfg(feature = "perf-literal")]
+pub fn rare_candidate(
+    pats: &[&[u8]],
+    ci: bool,
+    hay: &[u8],
+    s: usize,
+    e: usize,
+) -> (bool, Option<usize>) {
+    let mut b = RareBytesBuilder::new().ascii_case_insensitive(ci);
+    for p in pats {
+        b.add(p);
+    }
+    match b.build() {
+        None => (false, None),
+        Some(pre) => {
+            let c = pre.find_in(hay, Span { start: s, end: e });
+            let r = c.into_option();
+            core::mem::forget(pre);
+            (true, r)
+        }
+    }
+}
+
+/// Same for the start-byte builder.
+#[cfg(feature = "perf-literal")]
+pub fn start_candidate(
+    pats: &[&[u8]],
+    ci: bool,
+    hay: &[u8],
+    s: usize,
+    e: usize,
+) -> (bool, Option<usize>) {
+    let mut b = StartBytesBuilder::new().ascii_case_insensitive(ci);
+    for p in pats {
+        b.add(p);
+    }
+    match b.build() {
+        None => (false, None),
+        Some(pre) => {
+            let c = pre.find_in(hay, Span { start: s, end: e });
+            let r = c.into_option();
+            core::mem::forget(pre);
+            (true, r)
+        }
+    }
+}
